@@ -591,6 +591,11 @@ func (g *gctx) anyValueExpr() Expr {
 		}
 		return LitNumber{big.NewInt(int64(rapid.IntRange(0, 1000).Draw(g.t, "vsmall"))), g.pad()}
 	case 3:
+		if rapid.IntRange(0, 2).Draw(g.t, "lookAlike") == 0 {
+			// a string spelled like something of another kind the program names: an account, an asset, a small number, a portion
+			// (string literals of the language take letters, digits, blanks, _ and - only)
+			return LitString{rapid.SampledFrom([]string{"0", "1", "2", "3", "world", "a", "b", "c", "USD", "COIN", "100"}).Draw(g.t, "vLookAlike")}
+		}
 		return LitString{rapid.StringMatching(`[a-zA-Z0-9_\- ]{0,12}`).Draw(g.t, "vStr")}
 	case 4:
 		return LitPortion{rapid.SampledFrom([]string{"1/3", "2/6", "12.5%", "100%", "0%", "7/8", "50/100"}).Draw(g.t, "vPortion")}
